@@ -55,6 +55,11 @@ def run(idx, rep, tier):
         tr = te.eval_in(rm, rets_r[0].value)
         M = strip_operand(tm, xm, "right")
         if M is None or has_opaque(M):
+            # composite kinds whose product is a reshape / concatenation algorithm: the matrix that algorithm is checked against (C01)
+            M = kind_def(idx, ci.name, "self")
+            if M is not None:
+                tm = MUL(M, xm)
+        if M is None or has_opaque(M):
             rep.undecided("left-product", construct, f"_matmat is not of the form M·X in the term grammar: {show(norm(tm))}", locs=[loc])
             continue
         # inside the class, `self` as a whole denotes the same matrix M
@@ -165,6 +170,10 @@ def run(idx, rep, tier):
                     continue
                 t = te.eval_in(fi, r.value)
                 ok = equal(t, want, hyp, defs)
+                if ok is False and kd is None and kind is not None and f"'{a}." in repr(norm(t, hyp)):
+                    # the rule builds its result from the operand's payload attributes, but what the kind represents in terms of them
+                    # could not be read off its _matmat (outside the term grammar): nothing to compare with
+                    ok = None
                 hy = ", ".join(sorted(f"{h[0]}({show(h[1])})" for h in hyp))
                 rep.decide(ok, "transpose-rule", construct, f"returns {show(norm(t, hyp))}; required {show(norm(want if not defs else want, hyp))}"
                            + (f" = {show(norm(__import__('sa.term', fromlist=['expand']).expand(want, defs), hyp))}" if defs else "") + (f" under {hy}" if hy else "")
